@@ -7,7 +7,7 @@ CONSTANTS
   Assets = {"htltone", "htlttwo"}
   Templates <- TemplatesGen
   Locks = {0, 1, 2}
-  Dts = {1, 2, 3}
+  Dts = {0, 1, 2, 3, 7}
   Params0 <- ParamsA
   ParamAlts <- ParamAltsAll
   MaxH = 12
